@@ -51,6 +51,7 @@ class GeminiClient:
         tofu_db_path: Path | None = None,
         client_cert: Path | str | None = None,
         client_key: Path | str | None = None,
+        decode_text: bool = True,
     ):
         """Initialize the Gemini client.
 
@@ -74,6 +75,7 @@ class GeminiClient:
         self.max_redirects = max_redirects
         self.verify_ssl = verify_ssl
         self.trust_on_first_use = trust_on_first_use
+        self.decode_text = decode_text
 
         # Validate client cert/key pair
         if client_cert and not client_key:
@@ -186,6 +188,7 @@ class GeminiClient:
             parsed.normalized,
             response_future,
             send_on_connect=self.tofu_db is None,
+            decode_text=self.decode_text,
         )
 
         # Create connection using Protocol/Transport pattern
